@@ -6,7 +6,7 @@
    restricted to the retained terms; and the result passes the executable statements of C01, C02
    and C03 again.  The theorems say what its reference functions mean. *)
 From Coq Require Import Relations.
-From HpoV Require Import Gen.Consts Model.Base Model.Group Model.Onto Model.Query Model.SubOnt Run.World Run.C01 Run.C11 Run.C14 Proofs.C01P Proofs.C14P Proofs.ClosureP Proofs.DistP Proofs.SubP Proofs.QgoodP Proofs.SubLinksP Proofs.AcyclicP Proofs.RecordsP Proofs.AnnotP Proofs.SubAnnotP Proofs.SubDistP Proofs.SubTotalP.
+From HpoV Require Import Gen.Consts Model.Base Model.Group Model.Onto Model.Query Model.SubOnt Run.World Run.C01 Run.C11 Run.C14 Proofs.C01P Proofs.C14P Proofs.ClosureP Proofs.DistP Proofs.SubP Proofs.QgoodP Proofs.SubLinksP Proofs.SubCopyP Proofs.AcyclicP Proofs.RecordsP Proofs.AnnotP Proofs.SubAnnotP Proofs.SubDistP Proofs.SubTotalP.
 
 Theorem C14_retained_on_shortest_chain : forall ts n l t root dl,
   sd n ts l root = Some dl ->
@@ -120,6 +120,16 @@ Theorem C14_model_sub_ontology_returns : forall icf o root leaves, qgood o -> ac
   exists o', sub_ontology icf o root leaves = Ok o'.
 Proof. exact sub_ontology_total. Qed.
 
+(* NAMES AND FLAGS ARE COPIED: every term of the result carries the name, the obsolete flag and the
+   replacement of the source term with the same id *)
+Theorem C14_model_names_and_flags_copied : forall icf o root leaves o', qgood o ->
+  (forall l, In l leaves -> In l (ar_keys (o_arena o))) ->
+  sub_ontology icf o root leaves = Ok o' ->
+  forall t', In t' (ar_terms (o_arena o')) ->
+  exists t, In t (ar_terms (o_arena o)) /\ t_id t' = t_id t /\ t_name t' = t_name t /\
+            t_obsolete t' = t_obsolete t /\ t_repl t' = t_repl t.
+Proof. exact sub_ontology_copies. Qed.
+
 Print Assumptions C14_retained_on_shortest_chain.
 Print Assumptions C14_result_closure_exact.
 Print Assumptions C14_model_retained_set.
@@ -132,3 +142,4 @@ Print Assumptions C14_model_contains_leaves_and_root.
 Print Assumptions C14_model_leaf_collection_is_a_set.
 Print Assumptions C14_model_acceptance.
 Print Assumptions C14_model_sub_ontology_returns.
+Print Assumptions C14_model_names_and_flags_copied.
